@@ -5,7 +5,7 @@ META = {
     "bounds": {"quick": {"source": "P,N in 0..2 scored samples (sorted harness, ties allowed), easy counts symbolic in [0,3] (non-stratified) / unbounded (by_label)",
                          "RNG": "every binomial / poisson / choice / normal / shuffle result is a fresh symbol constrained only by the documented contract",
                          "forked sizes": "drawn class sizes <= 4, single-pass multiplicities <= 2 per score (recorded cut)"},
-               "thorough": {"source": "P,N in 0..3", "forked sizes": "drawn class sizes <= 5"}},
+               "thorough": {"source": "P,N in 0..3 (non-stratified replacement: P+N <= 4)", "forked sizes": "drawn class sizes <= 5"}},
     "assumptions": ["RNG contracts: binomial(n,p) in [0,n], =0 if p=0, =n if p=1; poisson(lam) >= 0, =0 if lam=0; choice(a,size,replace) -> size indices in [0,a), pairwise distinct without replacement; normal -> arbitrary reals",
                     "unbiasedness is decided in solver form: the distribution PARAMETERS requested from the RNG are the documented ones (moment identities), and every source score is reachable; that NumPy's generators realise those distributions is outside the technique",
                     "SINGLE_PASS_SAMPLE_THRESHOLD is lowered to 2 by assigning the module variable (documented knob) to reach the dynamic switch"],
@@ -21,6 +21,8 @@ def items(tier):
     for i, (P, N) in enumerate(szs):
         sc, ec = cfgs[i % len(cfgs)]
         for strat in (None, "by_label"):
+            if strat is None and P + N >= 5:
+                continue      # non-stratified replacement with 3+2 / 3+3 scores: > 25 min per item (symbolic drawn sizes x gathers), outside both tiers
             out.append({"kind": "replacement", "sc": sc, "ec": ec, "P": P, "N": N, "strat": strat, "smoothing": False})
         if P and N:
             for strat in (None, "by_label"):
